@@ -67,6 +67,9 @@ GENERATORS = [
     ("gen_packed", "miniconf/src/packed.rs", "Packed.lean"),
     ("gen_consts", ("miniconf_mqtt/src/lib.rs", "py/miniconf-mqtt/miniconf/async_.py", "py/miniconf-mqtt/miniconf/sync.py",
                     "py/miniconf-mqtt/miniconf/common.py"), "Consts.lean"),
+    ("gen_core", ("miniconf/src/error.rs", "miniconf/src/key.rs", "miniconf/src/node.rs", "miniconf/src/walk.rs",
+                  "miniconf/src/iter.rs"), "Core.lean"),
+    ("gen_text", ("miniconf/src/node.rs", "miniconf/src/jsonpath.rs", "miniconf/src/key.rs"), "Text.lean"),
 ]
 
 
